@@ -167,3 +167,46 @@ Section PRFProofs.
   Lemma P_hash_length : forall n secret seed, length (P_hash hmac n secret seed) = n.
   Proof. intros. unfold P_hash. rewrite firstn_length, stream_length. nia. Qed.
 End PRFProofs.
+
+(* ---------- exported keying material (RFC 5705): ekmFromMasterSecret ------------------------------- *)
+Lemma ekm_seed_spec : forall cr sr c, (N.of_nat (length c) < 65536)%N ->
+  ekm_seed cr sr (Some c) = cr ++ sr ++ [N.of_nat (length c) / 256; N.of_nat (length c) mod 256]%N ++ c.
+Proof.
+  intros cr sr c H. unfold ekm_seed. cbn [app]. rewrite (N.mod_small (N.of_nat (length c) / 256) 256); [reflexivity|].
+  apply N.div_lt_upper_bound; [discriminate|exact H].
+Qed.
+
+(* the seed tells an absent context from an empty one, and any two contexts from each other *)
+Lemma ekm_seed_injective : forall cr sr c1 c2, ekm_seed cr sr c1 = ekm_seed cr sr c2 -> c1 = c2.
+Proof.
+  intros cr sr c1 c2 H. unfold ekm_seed in H.
+  apply app_inv_head in H. apply app_inv_head in H.
+  destruct c1 as [a|], c2 as [b|]; cbn in H; try discriminate; [|reflexivity].
+  injection H as _ _ H. subst. reflexivity.
+Qed.
+
+Section EKMProofs.
+  Variable hmac : list N -> list N -> list N.
+  Variable hl : nat.
+  Hypothesis hl_pos : 1 <= hl.
+  Hypothesis hmac_len : forall k m, length (hmac k m) = hl.
+
+  Lemma ekm_is_spec : forall fuel n ms cr sr label context, n <= fuel ->
+    reserved_label label = false -> context_too_long context = false ->
+    ekmFromMasterSecret_bytes hmac fuel ms cr sr label context n = Ok (EKM_spec hmac n ms cr sr label context).
+  Proof.
+    intros fuel n ms cr sr label context Hf Hr Hc. unfold ekmFromMasterSecret_bytes. rewrite Hr, Hc.
+    unfold prf12. rewrite (pHash_is_P_hash hmac hl hl_pos hmac_len) by exact Hf.
+    unfold EKM_spec, PRF_spec. destruct context as [c|].
+    - rewrite ekm_seed_spec; [reflexivity|]. cbn in Hc. apply N.leb_gt in Hc. exact Hc.
+    - unfold ekm_seed. rewrite app_nil_r. reflexivity.
+  Qed.
+
+  Lemma ekm_refusals : forall fuel n ms cr sr label context,
+    (reserved_label label = true -> ekmFromMasterSecret_bytes hmac fuel ms cr sr label context n = Err 1) /\
+    (reserved_label label = false -> context_too_long context = true ->
+       ekmFromMasterSecret_bytes hmac fuel ms cr sr label context n = Err 2).
+  Proof.
+    intros. unfold ekmFromMasterSecret_bytes. split; [intros ->; reflexivity|intros -> ->; reflexivity].
+  Qed.
+End EKMProofs.
